@@ -147,6 +147,41 @@ def one(case):
                                'spec': {'spans': case['matches'], 'message': case['msg'], 'suggestions': case['sugg'],
                                         'mutations': ([{'op': 'set', 'path': ['matches', 0, 'rule', 'urls', 0, 'value'], 'value': case['url']}] if case.get('url') else [])}})
 
+def swap_case(rng):
+    """LaTeX input whose plain text is not in source order (a macro that swaps its arguments, a footnote in mid-sentence):
+    a match that covers words from both sides maps to a position list that is not monotone"""
+    def w():
+        return 'Q' + ''.join(rng.choice('abcdefghijklmnopqrstuvwxyz') for _ in range(rng.randint(3, 5)))
+    lines = ['\\newcommand{\\sw}[2]{#2 #1}']
+    flags = []
+    for _ in range(rng.randint(1, 4)):
+        a, b, c, d = w(), w(), w(), w()
+        k = rng.randrange(3)
+        if k == 0:
+            lines.append('%s \\sw{%s}{%s} %s.' % (a, b, c, d)); flags.append(c + ' ' + b)
+        elif k == 1:
+            lines.append('%s \\sw{%s}{%s} %s <&> %s.' % (a, b, c, d, w())); flags.append(b + ' ' + d); flags.append(a)
+        else:
+            lines.append('%s %s %s.' % (a, b, c)); flags.append(b)
+    return {'doc': '\n'.join(lines) + '\n', 'flags': flags, 'context': rng.choice([-1, 0, 1, 2]), 'matches': []}
+
+def one_tex(case):
+    return shellrun.run_shell({'files': {'d.tex': case['doc']}, 'main': ['d.tex'],
+                               'args': ['--output', 'html', '--context', str(case['context'])],
+                               'spec': {'flag_words': case['flags']}})
+
+def judge_tex(case, r):
+    fails = judge(case, r)                       # faithful rows, each source line at most once, no foreign tag
+    if fails or r['rc'] != 0:
+        return fails
+    p = P(); p.feed(r['stdout']); p.close()
+    for f in case['flags']:
+        key = 'flag ' + f
+        hit = [txt for t, txt in p.spans if re.sub(r'\s', ' ', t).startswith(key)]
+        if not any(h.strip() for h in hit):
+            fails.append('the match on %r is highlighted nowhere (neither in place nor among the overlapping messages)' % f); break
+    return fails
+
 def run(ctx):
     rng = ctx.rng
     cases = []
@@ -167,6 +202,12 @@ def run(ctx):
             ctx.violation(fails[0], doc=c['doc'], matches=c['matches'], context=c['context'], msg=c['msg'], sugg=c['sugg'], link=c.get('link'), url=c.get('url'), all=fails[:3])
         if len(ctx.samples) < 3:
             ctx.sample({'doc': c['doc'][:120], 'matches': c['matches'], 'context': c['context']})
+    tcases = [swap_case(rng) for _ in range(ctx.scale(24, 400))]
+    for c, r in zip(tcases, ctx.pmap(one_tex, tcases, chunksize=1)):
+        ctx.case((c['doc'], tuple(c['flags']), c['context'])); ctx.count('latex_input_non_monotone_map')
+        f = judge_tex(c, r)
+        if f:
+            ctx.violation(f[0], doc=c['doc'], flags=c['flags'], context=c['context'], matches=[], tex=True)
     protect_corr(ctx)
     if ctx.model_ok:
         import corr_html
@@ -192,10 +233,16 @@ def protect_corr(ctx):
             ctx.disagree('protect_html differs', s=s, impl=r, model=proto.dec_str(ans['p%d' % i][1]))
 
 def judge_witness(w):
+    if w.get('tex'):
+        return judge_tex(w, one_tex(w))
     return judge(w, one(w))
 
 def replay(data):
     v = data['violation']
+    if v.get('tex'):
+        f = judge_witness(v)
+        print('\n'.join(f) if f else 'ok')
+        return not f
     f = judge_witness({'doc': v['doc'], 'matches': [tuple(x) for x in v['matches']], 'context': v['context'], 'msg': v['msg'], 'sugg': v['sugg'],
                        'link': v.get('link'), 'url': v.get('url')})
     print('\n'.join(f) if f else 'ok')
